@@ -116,6 +116,19 @@ func runC07(p *Prog, r *Report) {
 		r.Check(len(cl) == 1 && len(snd) == 1 && cl[0].In.Block() == snd[0].In.Block(), R, "clone-per-pipe", cl.Pos(p), "one Clone per pipe", "not one Clone per pipe")
 	}
 
+	R = "C07.9/context-inherits-survey-time"
+	r.Describe(R, "a context opened on the socket takes the survey time configured on the socket (the default context's), not a constant: otherwise surveys on that context expire by a deadline the user did not set")
+	oc := q.Fn(R, "protocol/surveyor", "socket", "OpenContext")
+	if oc.OK() {
+		st := oc.Ev("store", "$complit.survExpire")
+		r.Check(len(st) == 1 && st[0].Args[0] == "recv.master.survExpire" && len(st[0].Held) > 0, R, "OpenContext/survExpire", st.Pos(p), "survExpire = master.survExpire under the lock", "OpenContext does not take the survey time from the default context under the lock: "+argsOf(st))
+	}
+
+	r.Describe("C07.10/send-contract", "a Send that fails (timeout, closed) leaves the survey/response message as the caller passed it, so that the retry is routed by the same header")
+	e5SendContracts(p, r, "C07.10/send-contract", func(rel string) bool {
+		return rel == "protocol/surveyor" || rel == "protocol/xsurveyor" || rel == "protocol/respondent" || rel == "protocol/xrespondent"
+	})
+
 	R = "C07.5/recv"
 	r.Describe(R, "context.RecvMsg: no current survey => ErrProtoState without waiting; a closed queue yields the survey's recorded error")
 	rm := q.Fn(R, "protocol/surveyor", "context", "RecvMsg")
